@@ -57,6 +57,8 @@ def assigned_targets(body: List[ast.stmt]):
                 attrs.append(s)
         elif isinstance(t, ast.Subscript):
             base = t.value
+            while isinstance(base, ast.Subscript):      # data["k"][i] = .. / data["k"].append(..): the container that changes is the root one
+                base = base.value
             if isinstance(base, ast.Name):
                 if base.id not in names:
                     names.append(base.id)
